@@ -113,7 +113,7 @@ PLANS = {
         "(up to renaming of new ids) with a twin on which the same additions were made by kid/next_id/add/bind/put calls, re-checked after every "
         "read of a random read/drain continuation; non-trivial = partial overlap, data in the right tree, >=1 new vertex and a group dying in the "
         "continuation",
-        (2500, 12), (40000, 150), floor=30),
+        (15000, 12), (250000, 150), floor=30),
     "C12": hist(
         "right graph = random tree + 0..6 extras (isolated vertices with/without data, detached sub-trees, right below the root), random left "
         "tree and left vertex; oracle = reachability in the right graph computed from its build ops; Ok must imply completeness, Err must "
